@@ -178,4 +178,211 @@ theorem disconnect_post (cfg : Config) (s : State) (hr : Reachable cfg s) (op : 
     simp only [List.mem_append, List.mem_map, List.mem_flatMap, List.mem_filter]
     refine Or.inl (Or.inr (Or.inl (Or.inr ⟨r, ⟨q, ⟨hq, by simpa using hne⟩, hr', by simpa using hreq⟩, rfl⟩)))
 
+example : Reachable {} exS ∧ Obs.closed 1 ∈ (step {} exS (.disconnect 1 {})).2 :=
+  ⟨exS_reachable,
+   (closed_iff_closes exS_reachable.inv _ _).2 ⟨mkCtx exS {}, by decide +kernel, Or.inl ⟨_, rfl, rfl⟩⟩⟩
+
+/-! ## 2. subscribers_see_remove -/
+
+/-- In a step that tears `c` down from context `x` (where `p` is c's record): for every element
+    `e` of `c` and every occupied fetcher slot naming a fetch of another peer, that fetch exists and
+    its peer is sent the "remove" notification for `e` carrying that fetch's id.  These
+    notifications are the last outputs before `closed c`, in element-list order and, within an
+    element, in slot order (slots of c's own fetches are skipped: its fetches were dropped first). -/
+theorem subscribers_see_remove (cfg : Config) (s : State) (hr : Reachable cfg s) (op : Op) (c : Nat)
+    (x : Ctx) (p : Peer) (hx : Closes cfg s op c x) (hp : findPeer x.st.peers c = some p) :
+    let out := (step cfg s op).2
+    (∀ e ∈ p.elements, ∀ fk, some fk ∈ e.fetchers → fk.peer ≠ c →
+      ∃ f, findFetch x.st.peers fk = some f ∧
+        Obs.send fk.peer (notification e f.fid "remove") true ∈ out.map strip) ∧
+    (∃ before, out.map strip = before ++
+      p.elements.flatMap (fun e => e.fetchers.filterMap (fun sl => match sl with
+        | some fk => if fk.peer == c then none
+                     else (findFetch x.st.peers fk).map
+                       (fun f => Obs.send fk.peer (notification e f.fid "remove") true)
+        | none => none)) ++ [Obs.closed c]) := by
+  have hIx := hx.inv hr.inv
+  have hpm := (findPeer_some hp).1
+  have hout := hx.out_eq hr.inv hp
+  have hnot : p.elements.flatMap (fun e => notifyActs x.st.peers (unsub c e) "remove") =
+      p.elements.flatMap (fun e => e.fetchers.filterMap (fun sl => match sl with
+        | some fk => if fk.peer == c then none
+                     else (findFetch x.st.peers fk).map
+                       (fun f => Obs.send fk.peer (notification e f.fid "remove") true)
+        | none => none)) := by
+    apply flatMap_congr'
+    intro e _
+    exact notifyActs_unsub _ _ _ _
+  dsimp only
+  constructor
+  · intro e he fk hfk hne
+    obtain ⟨f, hf⟩ := findFetch_of_mem_fetchKeys hIx.nodup (hIx.fetchers p hpm e he fk hfk)
+    refine ⟨f, hf, ?_⟩
+    rw [hout, hnot]
+    simp only [List.mem_append, List.mem_flatMap, List.mem_filterMap]
+    refine Or.inl (Or.inr (Or.inr ⟨e, he, some fk, hfk, ?_⟩))
+    have : (fk.peer == c) = false := by simpa using hne
+    simp [this, hf]
+  · refine ⟨x.out.reverse.map strip ++ (p.routes.flatMap (routeActs c) ++
+      ((x.st.peers.filter (·.conn != c)).flatMap (fun q => q.routes.filter (·.requester == c))).map
+        (fun r => Obs.timerDestroy r.timer)), ?_⟩
+    rw [hout, hnot]
+    simp only [List.append_assoc]
+
+example : Closes {} exS (.disconnect 1 {}) 1 (mkCtx exS {}) ∧
+    (findPeer (mkCtx exS {}).st.peers 1).isSome = true :=
+  ⟨⟨by decide +kernel, Or.inl ⟨_, rfl, rfl⟩⟩, by decide +kernel⟩
+
+/-! ## 3. others_untouched -/
+
+/-- what `unsub c` does to an element: nothing but emptying the fetcher slots of c's fetches -/
+theorem unsub_spec (c : Nat) (e : Element) :
+    (unsub c e).path = e.path ∧ (unsub c e).owner = e.owner ∧ (unsub c e).value = e.value ∧
+    (unsub c e).fetchOnly = e.fetchOnly ∧ (unsub c e).timeoutNs = e.timeoutNs ∧
+    (unsub c e).fetchGroups = e.fetchGroups ∧ (unsub c e).setGroups = e.setGroups ∧
+    (unsub c e).callGroups = e.callGroups ∧
+    (unsub c e).fetchers.length = e.fetchers.length ∧
+    (∀ (i : Nat) (fk : FetchKey), e.fetchers[i]? = some (some fk) → fk.peer ≠ c → (unsub c e).fetchers[i]? = some (some fk)) ∧
+    (∀ (i : Nat) (fk : FetchKey), (unsub c e).fetchers[i]? = some (some fk) → e.fetchers[i]? = some (some fk) ∧ fk.peer ≠ c) := by
+  refine ⟨rfl, rfl, rfl, rfl, rfl, rfl, rfl, rfl, by simp [unsub], ?_, ?_⟩
+  · intro i fk h hne
+    simp [unsub, h, hne]
+  · intro i fk h
+    simp only [unsub, List.getElem?_map, Option.map_eq_some_iff] at h
+    obtain ⟨sl, hsl, heq⟩ := h
+    cases sl with
+    | none => cases heq
+    | some fk' =>
+      simp only at heq
+      split at heq
+      · cases heq
+      · next hne =>
+        cases heq
+        exact ⟨hsl, by simpa using hne⟩
+
+/-- A step that tears `c` down from context `x` leaves behind exactly `afterClose x.st c`:
+    the index entries of other owners, the user table and the counters are unchanged; the other
+    peers stay in the same order; and for every other peer `q`: connection data, name, user,
+    groups and fetches are identical, its routing table keeps exactly the entries not requested
+    by `c` (same order), and its elements are the same elements (path, owner, value, flags,
+    groups, timeout — see `unsub_spec`) whose fetcher tables differ only in that the slots of c's
+    fetches are empty. -/
+theorem others_untouched (cfg : Config) (s : State) (hr : Reachable cfg s) (op : Op) (c : Nat)
+    (x : Ctx) (hx : Closes cfg s op c x) :
+    let s' := (step cfg s op).1
+    s' = afterClose x.st c ∧
+    s'.index = x.st.index.filter (·.2 != c) ∧
+    (∀ pa o, o ≠ c → ((pa, o) ∈ s'.index ↔ (pa, o) ∈ x.st.index)) ∧
+    s'.users = x.st.users ∧ s'.uuid = x.st.uuid ∧ s'.nextTimer = x.st.nextTimer ∧
+    s'.nextUid = x.st.nextUid ∧
+    conns s'.peers = (conns x.st.peers).filter (· != c) ∧
+    (∀ q ∈ x.st.peers, q.conn ≠ c → ∃ q', findPeer s'.peers q.conn = some q' ∧
+      q'.conn = q.conn ∧ q'.ws = q.ws ∧ q'.isLocal = q.isLocal ∧ q'.addrTok = q.addrTok ∧
+      q'.name = q.name ∧ q'.user = q.user ∧ q'.fetchGroups = q.fetchGroups ∧
+      q'.setGroups = q.setGroups ∧ q'.callGroups = q.callGroups ∧ q'.fetches = q.fetches ∧
+      q'.routes = q.routes.filter (·.requester != c) ∧
+      q'.elements = q.elements.map (unsub c)) := by
+  have hst := hx.st_eq hr.inv
+  have hI' : Inv (afterClose x.st c) := inv_afterClose (hx.inv hr.inv) c
+  dsimp only
+  rw [hst]
+  refine ⟨rfl, rfl, ?_, rfl, rfl, rfl, rfl, conns_afterClose _ _, ?_⟩
+  · intro pa o hne
+    unfold afterClose
+    simp only [List.mem_filter]
+    constructor
+    · exact fun h => h.1
+    · exact fun h => ⟨h, by simpa using hne⟩
+  · intro q hq hne
+    refine ⟨scrub c q, ?_, rfl, rfl, rfl, rfl, rfl, rfl, rfl, rfl, rfl, rfl, rfl, rfl⟩
+    exact findPeer_of_mem hI'.nodup (mem_afterClose_of hq hne)
+
+/-- the same for a `disconnect` of a live connection, stated on the pre-state itself -/
+theorem others_untouched_disconnect (cfg : Config) (s : State) (hr : Reachable cfg s) (c : Nat) (o : Oracle)
+    (hc : c ∈ conns s.peers) :
+    let s' := (step cfg s (.disconnect c o)).1
+    s' = afterClose s c ∧
+    (∀ q ∈ s.peers, q.conn ≠ c → findPeer s'.peers q.conn = some (scrub c q)) ∧
+    (∀ q, (scrub c q).fetches = q.fetches ∧ (scrub c q).name = q.name ∧ (scrub c q).user = q.user ∧
+      (scrub c q).routes = q.routes.filter (·.requester != c) ∧
+      (scrub c q).elements = q.elements.map (unsub c)) := by
+  have hx : Closes cfg s (.disconnect c o) c (mkCtx s o) := ⟨hc, Or.inl ⟨o, rfl, rfl⟩⟩
+  have hst := hx.st_eq hr.inv
+  have hI' : Inv (afterClose s c) := inv_afterClose hr.inv c
+  dsimp only
+  rw [hst]
+  refine ⟨rfl, ?_, fun q => ⟨rfl, rfl, rfl, rfl, rfl⟩⟩
+  intro q hq hne
+  exact findPeer_of_mem hI'.nodup (mem_afterClose_of hq hne)
+
+example : Reachable {} exS ∧ 1 ∈ conns exS.peers ∧ (∃ q ∈ exS.peers, q.conn ≠ 1) :=
+  ⟨exS_reachable, by decide +kernel, by
+    have : (exS.peers.any (fun q => q.conn != 1)) = true := by decide +kernel
+    obtain ⟨q, hq, h⟩ := List.any_eq_true.1 this
+    exact ⟨q, hq, by simpa using h⟩⟩
+
+/-! ## 4. no_send_to_departed -/
+
+/-- In every history, every send of every step addresses a connection that is a peer in the
+    state in which the step starts (peers are only removed by the last action of a closing step,
+    so this is the peer set at the moment of the send as well). -/
+theorem no_send_to_departed (cfg : Config) (us : List User) (pre : List Op) (op : Op) :
+    let s := (run cfg { users := us } pre).1
+    ∀ d j ok, Obs.send d j ok ∈ (step cfg s op).2 → d ∈ conns s.peers := by
+  intro s d j ok hm
+  exact step_live (run_inv (inv_init us) pre) op hm
+
+/-- In a step that tears `c` down, everything emitted once the teardown has begun (`tail`)
+    addresses only peers other than `c` that are still live: `free_peer_resources` never sends
+    to the peer it releases. -/
+theorem teardown_never_addresses_leaver (cfg : Config) (s : State) (hr : Reachable cfg s) (op : Op) (c : Nat)
+    (x : Ctx) (hx : Closes cfg s op c x) :
+    ∃ tail, (step cfg s op).2 = x.out.reverse ++ tail ∧
+      (∀ d j ok, Obs.send d j ok ∈ tail → d ∈ conns s.peers ∧ d ≠ c) ∧
+      (∀ d j ok, Obs.send d j ok ∈ tail → d ∈ conns (step cfg s op).1.peers) := by
+  obtain ⟨tail, h1, h2⟩ := hx.tail hr.inv
+  refine ⟨tail, h1, h2, ?_⟩
+  intro d j ok hm
+  rw [hx.st_eq hr.inv, mem_conns_afterClose, hx.conns hr.inv]
+  exact h2 d j ok hm
+
+/-- a peer that is not connected is never addressed, as long as it does not connect again -/
+theorem departed_stays_silent (cfg : Config) (s : State) (hr : Reachable cfg s) (c : Nat)
+    (hc : c ∉ conns s.peers) (rest : List Op)
+    (hnc : ∀ op ∈ rest, ∀ ws l a, op ≠ Op.connect c ws l a) :
+    ∀ o ∈ (run cfg s rest).2, ∀ j ok, Obs.send c j ok ∉ o := by
+  induction rest generalizing s with
+  | nil => intro o ho; cases ho
+  | cons op rest ih =>
+    intro o ho j ok hm
+    rw [run_cons] at ho
+    simp only [List.mem_cons] at ho
+    rcases ho with rfl | ho
+    · exact hc (step_live hr.inv op hm)
+    · refine ih (step cfg s op).1 (hr.step op) ?_ (fun op' hop' => hnc op' (List.mem_cons_of_mem _ hop')) o ho j ok hm
+      intro hc'
+      rcases step_conns hr.inv op hc' with h | ⟨ws, l, a, h⟩
+      · exact hc h
+      · exact hnc op List.mem_cons_self ws l a h
+
+/-- After the step that reports `closed c`, no later step sends anything to `c` until a new
+    `connect c`. -/
+theorem no_send_after_close (cfg : Config) (s : State) (hr : Reachable cfg s) (op : Op) (c : Nat)
+    (hcl : Obs.closed c ∈ (step cfg s op).2) (rest : List Op)
+    (hnc : ∀ op ∈ rest, ∀ ws l a, op ≠ Op.connect c ws l a) :
+    ∀ o ∈ (run cfg (step cfg s op).1 rest).2, ∀ j ok, Obs.send c j ok ∉ o := by
+  obtain ⟨x, hx⟩ := (closed_iff_closes hr.inv op c).1 hcl
+  apply departed_stays_silent cfg _ (hr.step op) c _ rest hnc
+  rw [hx.st_eq hr.inv]
+  intro h
+  exact (mem_conns_afterClose.1 h).2 rfl
+
+example : Reachable {} exS ∧ Obs.closed 1 ∈ (step {} exS (.disconnect 1 {})).2 ∧
+    (∀ op ∈ [Op.timerFire 0 {}, Op.message 2 none {}], ∀ ws l a, op ≠ Op.connect 1 ws l a) := by
+  refine ⟨exS_reachable,
+    (closed_iff_closes exS_reachable.inv _ _).2 ⟨mkCtx exS {}, by decide +kernel, Or.inl ⟨_, rfl, rfl⟩⟩, ?_⟩
+  intro op hop ws l a h
+  simp only [List.mem_cons, List.not_mem_nil, or_false] at hop
+  rcases hop with rfl | rfl <;> cases h
+
 end Cjet.Props.C05
